@@ -252,16 +252,17 @@ Corollary c17_small_outside_classes_serialisable : forall directed h threads sch
   In sched (explore Nat.eqb directed 200 c0 []) ->
   no_panic (final Nat.eqb directed 200 c0 sched) = true /\
   all_done (final Nat.eqb directed 200 c0 sched) = true /\
-  exists s, serial_from Nat.eqb directed c0 None false s = true /\
+  exists s, In s (explore Nat.eqb directed 200 c0 []) /\   (* s is itself a MAXIMAL schedule (a serial prefix would not do) *)
+            serial_from Nat.eqb directed c0 None false s = true /\
             outcome_eqb Nat.eqb (final Nat.eqb directed 200 c0 s) (final Nat.eqb directed 200 c0 sched) = true.
 Proof.
   intros directed h threads sched Hin Hnone c0 Hs.
   pose proof (c17_small_outside_classes_good_forall directed h threads Hin Hnone) as Hg.
   pose proof (scenario_good_spec nat nat nat Nat.eqb Nat.eqb directed 200 h threads Hg sched Hs) as Hgs.
   apply good_schedule_spec in Hgs.
-  destruct Hgs as [Hnp [Hd [s [_ [Hser Hout]]]]].
+  destruct Hgs as [Hnp [Hd [s [Hins [Hser Hout]]]]].
   split; [exact Hnp|]. split; [exact Hd|].
-  exists s. split; [exact Hser|exact Hout].
+  exists s. split; [exact Hins|]. split; [exact Hser|exact Hout].
 Qed.
 
 Print Assumptions good_schedule_spec.
